@@ -369,6 +369,17 @@ def family(name, n, tier):
                     for sel in index_lists(n):
                         for form in forms_for(entry, len(sel), kwc):
                             yield (entry, form, tuple([False] * n), sel, kwc, compiled)
+    elif name == 'forms_wide':     # more trains (recursive pair halving with odd / larger pair lists), few selections
+        full = tuple(range(n))
+        sels = [full, tuple(reversed(full)), full[1:] + full[:1], full[:n - 1], (n - 1, 0, n // 2)]
+        for entry in entries:
+            for kwc in KW_CLASSES:
+                if not kw_allowed(entry, kwc):
+                    continue
+                for compiled in (False, True):
+                    for sel in sels:
+                        for form in forms_for(entry, len(sel), kwc):
+                            yield (entry, form, tuple([False] * n), sel, kwc, compiled)
     elif name == 'degenerate':     # C18 (+ conventions of C05/C07): every emptiness pattern
         for entry in entries:
             for kwc in ('default', 'max_tau_MRTS', 'interval', 'unnormalized'):
